@@ -13,7 +13,12 @@ Line-protocol driver for C01 (and, with `crash` / `restart`, C08). Protocol (har
   expire                     the orphan-expiry timer fires (`clean_expired_orphans`); the callbacks of the
                              removed orphans are dropped                      -> state line ++ " pool=<ids>"
   commits                    number of RocksDB commits the model has performed so far          -> <n>
-  restart <maxEpochLen> <order|->   crash, then re-deliver `scanList` (InitLoadUnverified)  -> state line
+  restart <maxEpochLen> <order|->   the model's `restart` (crash, then `scanList` re-delivered as
+                             InitLoadUnverified does), then Verify until the queue is empty -> state line
+  burststop <ids> <obs>      every id delivered WITHOUT verification, then some number v of verify steps,
+                             then the process stops; <obs> = the persisted state line the harness observed
+                             (spaces written as |): the answer is the persisted state of the v that equals
+                             it (and the model continues from it), else that of v = 0       -> state line
   scan <maxEpochLen> <order|->      the scan list only                                      -> ids
 
 state line: cb=<id>:<new|known|err|drop>,… tip=<id> td=<n> orph=<k> stored=<ids> ext=<id>:<td>,… ver=<ids> inv=<ids>
@@ -66,11 +71,29 @@ def getState (d : St) : State := match d.st with | some s => s | none => init (t
 
 def bool? (s : String) : Option Bool := if s = "1" then some true else if s = "0" then some false else none
 
+/-- the model's `restart` (crash + the start-up scan's deliveries), then the verify thread runs until
+the queue is empty: the harness compares at quiescence -/
 def doRestart (T : Tree) (mel : Nat) (order : List Nat) (s : State) : State × Out :=
+  let r := (rstep T s (.restart mel order))
+  drain T r.1.queue.length r.1 r.2
+
+/-- the other extreme interleaving of the scan thread and the verify thread: every re-submitted block
+is verified before the next one is handed over. The real node is somewhere between the two; the driver
+answers with `doRestart` and flags a history on which the two extremes differ (none is known: the
+deliveries of the scan never release pooled blocks and verification is FIFO either way). -/
+def doRestartSerial (T : Tree) (mel : Nat) (order : List Nat) (s : State) : State × Out :=
   let s0 := crash s
   (scanList T mel order s0).foldl (fun (acc : State × Out) b =>
     let r := deliverQ T [] acc.1 b
     (r.1, acc.2 ++ r.2)) (s0, [])
+
+/-- `burststop`: the ids are handed to the chain service one after the other WITHOUT waiting for
+verification (`deliver`, no drain); the verify thread completes some number `v` of queue entries; the
+process stops. The candidates are the persisted states for every `v`. -/
+def burstStopCands (T : Tree) (s : State) (ids : List Nat) : List State :=
+  let s1 := ids.foldl (fun s b => (deliver T [] s b).1) s
+  (List.range (s1.queue.length + 1)).map fun v =>
+    crash ((List.range v).foldl (fun s _ => (verifyHead T s).1) s1)
 
 /-- the states between the individual RocksDB commits of one serialised delivery (each micro-step
 of `deliver` / `verifyHead` performs at most one commit) -/
@@ -130,11 +153,26 @@ def step (d : St) (ts : List String) : St × String :=
   | ["crash"] =>
     let s := crash (getState d)
     ({ d with st := some s }, stateLine d.decls s [])
+  | ["burststop", l, obs] =>
+    match parseNatList? l with
+    | some l =>
+      let cands := burstStopCands (treeOf d.decls) (getState d) l
+      let want := obs.replace "|" " "
+      match cands.find? (fun c => stateLine d.decls c [] == want) with
+      | some c => ({ d with st := some c }, stateLine d.decls c [])
+      | none =>
+        match cands with
+        | c :: _ => ({ d with st := some c }, stateLine d.decls c [])
+        | [] => (d, "bad-op")
+    | none => (d, "bad-op")
   | ["restart", m, o] =>
     match parseNat? m, parseNatList? o with
     | some m, some o =>
       let r := doRestart (treeOf d.decls) m o (getState d)
-      ({ d with st := some r.1 }, stateLine d.decls r.1 [])
+      let r' := doRestartSerial (treeOf d.decls) m o (getState d)
+      let line := stateLine d.decls r.1 []
+      let line' := stateLine d.decls r'.1 []
+      ({ d with st := some r.1 }, if line == line' then line else s!"interleaving-dependent {line} / {line'}")
     | _, _ => (d, "bad-op")
   | ["scan", m, o] =>
     match parseNat? m, parseNatList? o with
